@@ -6,8 +6,9 @@ length-determining octets (windows meeting it are outside the property), in whic
 documented error than the checksum error may legitimately come first, and which Lean op family gives
 the model verdict (`c04_<model>_check|corrupt|sweep`). For every packet: every single-bit flip and
 bursts of every length 2..16 at every bit offset; the decoder must not return, must fail with a
-documented class (the checksum class wherever nothing else was hit), the standalone CRC check must
-say False, and all of it must agree with the model run on the same corrupted octets.
+documented class (the property allows the checksum error or another documented decode error, so the
+class itself is not compared), the standalone CRC check must say False, and all of it must agree
+with the model run on the same corrupted octets.
 """
 import random
 from typing import Any, Callable, Dict, Iterator, List, Optional, Tuple
@@ -384,11 +385,7 @@ def op_sweep(a):
                                            f"(bit_offset={k} pattern={pat}): " + _snippet(kind, d, {}))
                 out["rejected"] += 1
                 if cat == "crc" and clean:
-                    out["crc_class_on_clean"] += 1
-                elif clean and base_ok:
-                    raise SelfCheckFailure(f"corrupted packet refused with {type(exc).__name__} instead of the checksum error "
-                                           f"although only CRC-protected content was hit (bit_offset={k} pattern={pat}): "
-                                           + _snippet(kind, d, {}))
+                    out["crc_class_on_clean"] += 1   # informative only (see SWEEP_KEYS)
             else:
                 if base_ok:
                     raise SelfCheckFailure(f"corrupted packet ACCEPTED by the decoder (bit_offset={k} pattern={pat}): "
@@ -455,6 +452,11 @@ def op_tm_mutated_pack(a):
     return {"first": hx(first), "raw": hx(raw), "crc_check": bool(check_pus_crc(raw))}
 
 
+# keys of a sweep result that are compared with the model. The property allows "its documented checksum
+# error (or another documented decode error)", so which documented class refuses a corrupted packet is NOT
+# compared (reordering two guards is harmless); `clean_windows` / `crc_class_on_clean` are reported only.
+SWEEP_KEYS = ["base_ok", "base_crc_check", "faults", "rejected", "undocumented", "crc_checked", "crc_check_false"]
+
 OPS: Dict[str, Callable] = {"c04_crc": op_crc, "c04_flip": op_flip, "c04_tc_mutated_pack": op_tc_mutated_pack,
                             "c04_tm_mutated_pack": op_tm_mutated_pack}
 for _m in ("tc", "tm", "s17", "s1", "cfdp", "cfdpdir"):
@@ -507,9 +509,8 @@ class C04(Prop):
 
     # individual faults of one packet as separately compared lines (also the neighbourhood of a differing sweep)
     def _single(self, kind: Kind, raw: bytes, ex: Dict[str, Any], k: int, pat: str, tag: str) -> Case:
-        clean = not meets(k, len(pat), *kind.cls(raw))
         return Case({"op": f"c04_{kind.model(raw)}_corrupt", **kind.extra(raw, ex), "raw": hx(raw), "bit_offset": k, "pattern": pat},
-                    "invalid", errclass=clean, tag=tag)
+                    "invalid", errclass=False, tag=tag)
 
     def neighbours(self, case: Case, rng: random.Random) -> Iterator[Case]:
         op = case.op
@@ -563,7 +564,7 @@ class C04(Prop):
         # ---- fault enumeration ------------------------------------------------------------------
         for kind in KINDS.values():
             if thorough:
-                n_light, n_full = kind.variants * 6, kind.variants
+                n_light, n_full = kind.variants * 3, max(4, kind.variants // 4)
             else:
                 n_light, n_full = ((kind.variants + 1) // 2 if kind.pus else 5), 1
             off = rng.randint(0, 1000)
@@ -583,12 +584,12 @@ class C04(Prop):
                 if full and not thorough:
                     pats = pats[:1] + rng.sample(pats[1:], 10)
                 if kind.pus:
-                    every = 1 if thorough else (6 if full else 3)
+                    every = (8 if full else 2) if thorough else (6 if full else 3)
                 else:
-                    every = 2 if thorough else 4
+                    every = (8 if full else 2) if thorough else 4
                 yield Case({"op": f"c04_{m}_sweep", **kind.extra(raw, ex), "raw": hx(raw), "patterns": pats, "crc_every": every},
-                           "valid", tag=f"{kind.name}:{'full' if full else 'light'}-sweep")
-                # a sample of the same faults as individually compared lines (error class compared)
+                           "valid", tag=f"{kind.name}:{'full' if full else 'light'}-sweep", keys=SWEEP_KEYS)
+                # a sample of the same faults as individually compared lines
                 nbits = 8 * len(raw)
                 for _ in range(40 if thorough else 10):
                     pat = rng.choice(["1", "1", rand_pattern(rng)])
